@@ -25,7 +25,7 @@
     shards (`nonOrth`), supplied by the harness from the real `DeltaVector::cosine_similarity`;
     the key-overlap test that follows it in the code is modelled exactly.
   Not modelled: the coordinator-local `handle_prepare` lock manager (empty throughout when real
-  `TxParticipant`s do the locking), WAL logging (C13), the branch of `TxParticipant::commit` taken
+  `TxParticipant`s do the locking), WAL logging (here; `Wal.lean` adds the coordinator's log, C13 its failures), the branch of `TxParticipant::commit` taken
   when `apply_operations` fails (`TensorStore::put` never returns an error), abort-ack tracking (`track_abort`, `get_retry_aborts`: bookkeeping after the decision).
 -/
 namespace Neumann.TwoPC
